@@ -251,7 +251,13 @@ Proof.
   - rewrite !app_nil_r, <- !app_assoc. reflexivity.
 Qed.
 
-Ltac emits_eqs := cbn [opt_comments fst snd]; rewrite ?app_nil_r, <- ?app_assoc; try reflexivity.
+(* the list equations left by emits_comp: inner ones first (reflexivity instantiates the intermediate lists); rewriting is
+   only attempted on goals without existential variables (rewriting under an evar does not terminate) *)
+Ltac emits_eqs :=
+  try reflexivity;
+  try match goal with
+      | |- ?g => tryif has_evar g then fail else (cbn [opt_comments fst snd]; rewrite ?app_nil_r, <- ?app_assoc; try reflexivity)
+      end.
 
 Lemma emits_suffix : forall o sfx,
   emits (fmt_suffix o sfx) (opt_comments (fun cr : ltext * ltext => lt_comments (fst cr) ++ lt_comments (snd cr)) sfx).
@@ -261,6 +267,11 @@ Proof.
                                                          (spc_if_next (fmt_loc comma st)))); [reflexivity|].
   repeat emits_step; unfold lt_comments; cbn [l_trivia]; emits_eqs.
 Qed.
+
+Ltac ecomp :=
+  lazymatch goal with
+  | |- emits (fun st => ?f (@?g st)) _ => eapply (emits_comp f g)
+  end.
 
 Lemma emits_operand : forall o op, emits (fmt_operand o op) (operand_comments op).
 Proof.
@@ -318,19 +329,25 @@ Proof.
   intros ft veof ts. induction ts as [|t rest IH]; intros prev Hft Hex.
   - cbn [format_tokens_loop tail_comments]. destruct veof as [tr|]; [apply emits_newline_before | apply emits_id].
   - cbn [existsb] in Hex. apply orb_false_elim in Hex as [Ht Hrest].
+    assert (Ht' : emits (fun st => ft t (newline_before prev t st)) (body t)).
+    { ecomp; [apply emits_newline_before | apply Hft; left; reflexivity | reflexivity]. }
+    assert (Hloop : emits (format_tokens_loop ft veof (Some t) rest) (tail_comments veof rest)).
+    { apply IH; [intros; apply Hft; right; assumption | assumption]. }
     cbn [format_tokens_loop tail_comments].
-    eapply emits_ext with (g := fun st => format_tokens_loop ft veof (Some t) rest
-        ((fun s => match rest with
-                   | n :: _ => fmt_otrivia (token_trivia n) s
-                   | [] => match veof with Some tr => fmt_otrivia tr s | None => s end
-                   end) (ft t (newline_before prev t st)))); [reflexivity|].
-    eapply emits_comp; [ eapply emits_comp; [ eapply emits_comp; [apply emits_newline_before | apply Hft; left; reflexivity | reflexivity] | | reflexivity ]
-                       | apply IH; [intros; apply Hft; right; assumption | assumption] | ].
-    + destruct rest as [|n rest'].
-      * destruct veof as [tr|]; [apply emits_otrivia | apply emits_id].
-      * cbn [existsb] in Hrest. apply orb_false_elim in Hrest as [Hn _].
-        rewrite (lead_not_expression n Hn). apply emits_otrivia.
-    + cbn [app]. rewrite <- !app_assoc. reflexivity.
+    destruct rest as [|n rest'].
+    + destruct veof as [tr|].
+      * eapply emits_ext with (g := fun st => format_tokens_loop ft (Some tr) (Some t) [] (fmt_otrivia tr (ft t (newline_before prev t st))));
+          [reflexivity|].
+        ecomp; [ ecomp; [exact Ht' | apply emits_otrivia | reflexivity] | exact Hloop | ].
+        cbn [veof_comments]. rewrite <- !app_assoc. reflexivity.
+      * eapply emits_ext with (g := fun st => format_tokens_loop ft None (Some t) [] (ft t (newline_before prev t st)));
+          [reflexivity|].
+        ecomp; [exact Ht' | exact Hloop | ]. cbn [veof_comments app]. reflexivity.
+    + cbn [existsb] in Hrest. apply orb_false_elim in Hrest as [Hn _].
+      eapply emits_ext with (g := fun st => format_tokens_loop ft veof (Some t) (n :: rest')
+                                           (fmt_otrivia (token_trivia n) (ft t (newline_before prev t st)))); [reflexivity|].
+      ecomp; [ ecomp; [exact Ht' | apply emits_otrivia | reflexivity] | exact Hloop | ].
+      rewrite (lead_not_expression n Hn), <- !app_assoc. reflexivity.
 Qed.
 
 Lemma nows_chunk_comments_drop : forall l,
@@ -383,15 +400,15 @@ Proof.
   assert (Hfirst : match ts with t :: _ => otrivia_comments (token_trivia t) | [] => veof_comments veof end = otrivia_comments first_trivia).
   { subst first_trivia. destruct ts; [destruct veof as [[?|]|]|]; reflexivity. }
   rewrite Hfirst.
-  eapply emits_comp; [ | apply (emits_loop ft veof ts None Hft Hex) | reflexivity ].
-  intros st. cbv zeta.
+  cbv zeta.
+  ecomp; [ | apply (emits_loop ft veof ts None Hft Hex) | reflexivity ].
+  intros st.
   set (sub := fmt_otrivia first_trivia (mkF [] (f_spc st) (f_indent st))).
   pose proof (emits_otrivia first_trivia (mkF [] (f_spc st) (f_indent st))) as Hsub. fold sub in Hsub.
-  unfold cnows at 2 in Hsub. unfold st_comments at 2 in Hsub. cbn [f_chunks rev chunk_comments filter map concat] in Hsub.
-  cbn [nows filter app] in Hsub.
+  change (cnows {| f_chunks := []; f_spc := f_spc st; f_indent := f_indent st |}) with (@nil N) in Hsub.
+  cbn [app] in Hsub. rewrite <- Hsub.
   unfold cnows, st_comments. cbn [f_chunks].
   rewrite rev_app_distr, rev_involutive, chunk_comments_app, concat_app, nows_app. f_equal.
-  rewrite <- Hsub. unfold cnows, st_comments.
   destruct trim; [apply nows_chunk_comments_drop | reflexivity].
 Qed.
 
@@ -404,13 +421,22 @@ Proof.
   induction ts as [|t r IH]; [reflexivity|]. unfold tokens_comments in *. cbn [flat_map]. rewrite <- IH, <- app_assoc. reflexivity.
 Qed.
 
-Lemma emits_set_indent : forall (k : fstate -> nat), emits (fun st => mkF (f_chunks st) (f_spc st) (k st)) [].
+Lemma emits_indent_by : forall k, emits (indent_by k) [].
+Proof. intros k. apply same_emits. intros st. reflexivity. Qed.
+Lemma emits_dedent_by : forall k, emits (dedent_by k) [].
 Proof. intros k. apply same_emits. intros st. reflexivity. Qed.
 
-Lemma emits_drop_nl : emits (fun st => mkF (drop_nl_chunks (f_chunks st)) (f_spc st) (f_indent st)) [].
+Lemma emits_pop_newlines : emits pop_newlines [].
 Proof.
-  intros st. unfold cnows, st_comments. cbn [f_chunks]. rewrite nows_chunk_comments_drop_rev.
+  intros st. unfold pop_newlines, cnows, st_comments. cbn [f_chunks]. rewrite nows_chunk_comments_drop_rev.
   unfold tnows; cbn; rewrite app_nil_r; reflexivity.
+Qed.
+
+Lemma emits_open_block : forall o lp, emits (open_block o lp) [].
+Proof.
+  intros o lp. unfold open_block. destruct (o_braces o).
+  - ecomp; [apply emits_push | apply emits_push | reflexivity].
+  - ecomp; [ ecomp; [apply emits_push | apply emits_push | reflexivity] | apply emits_push | reflexivity].
 Qed.
 
 Lemma ok_block_inv : forall lp inner rp, ok_block (mkBlock lp inner rp) ->
@@ -430,23 +456,259 @@ Proof.
   rewrite go_flat_map.
   pose proof (emits_tokens_with (format_token o) (Some (l_trivia rp)) inner true Hft Hex) as Hts.
   cbn [veof_comments] in Hts. fold (lt_comments rp) in Hts.
-  eapply emits_ext with (g := fun st =>
-     push (l_data rp) (push [NL]
-       ((fun s => mkF (drop_nl_chunks (f_chunks s)) (f_spc s) (f_indent s))
-         ((fun s => mkF (f_chunks s) (f_spc s) (f_indent s - o_indent o))
-           (format_tokens_with (format_token o) (Some (l_trivia rp)) inner true
-             ((fun s => mkF (f_chunks s) (f_spc s) (f_indent s + o_indent o))
-               ((fun s => match o_braces o with
-                          | SameLine => push [NL] (push (l_data lp) s)
-                          | NewLine => push [NL] (push (l_data lp) (push [NL] s))
-                          end) st))))))); [reflexivity|].
-  eapply emits_comp; [ eapply emits_comp; [ eapply emits_comp; [ eapply emits_comp; [ eapply emits_comp; [ eapply emits_comp;
-      [ | apply (emits_set_indent (fun s => f_indent s + o_indent o)) | reflexivity ]
+  cbv zeta.
+  ecomp; [ ecomp; [ ecomp; [ ecomp; [ ecomp; [ ecomp;
+      [ apply emits_open_block | apply emits_indent_by | reflexivity ]
       | exact Hts | reflexivity ]
-      | apply (emits_set_indent (fun s => f_indent s - o_indent o)) | reflexivity ]
-      | apply emits_drop_nl | reflexivity ]
+      | apply emits_dedent_by | reflexivity ]
+      | apply emits_pop_newlines | reflexivity ]
       | apply emits_push | reflexivity ]
       | apply emits_push | ].
-  - destruct (o_braces o); repeat emits_step; reflexivity.
-  - cbn [app]. rewrite !app_nil_r. reflexivity.
+  cbn [app]. rewrite !app_nil_r. reflexivity.
+Qed.
+Ltac emits_leaf :=
+  lazymatch goal with
+  | |- emits (fmt_lexpr _) _ => apply emits_lexpr
+  | |- emits (fmt_arg_exprs _) _ => apply emits_arg_exprs
+  | |- emits (fmt_arg_ids _) _ => apply emits_arg_ids
+  | |- emits (fmt_istring _) _ => apply emits_istring
+  | |- emits (fmt_opt fmt_istring _) _ => apply emits_opt; intros; apply emits_istring
+  | |- emits (fmt_opt (fmt_operand _) _) _ => apply emits_opt; intros; apply emits_operand
+  | |- emits (fmt_arg_specific _) _ => apply emits_arg_specific
+  | |- emits (fmt_opt fmt_import_as _) _ => apply emits_opt_import_as
+  | |- emits (format_expression _) _ => apply emits_expression
+  | _ => emits_step
+  end.
+
+(* `emits (format_block o b) (blockc b)` for a block b of the token being proved; IH is the lemma being proved, used on
+   the elements of the block's token list by structural recursion on that list *)
+Ltac block_case IH o b Hb :=
+  let lp := fresh "lp" in let inner := fresh "inner" in let rp := fresh "rp" in
+  let Hex := fresh "Hex" in let Hall := fresh "Hall" in
+  let a := fresh "a" in let r := fresh "r" in let IHr := fresh "IHr" in let t' := fresh "t'" in let Hin := fresh "Hin" in
+  destruct b as [lp inner rp]; destruct (ok_block_inv _ _ _ Hb) as [Hex Hall];
+  apply emits_block_of_tokens; [ | exact Hex ];
+  clear - IH Hall; induction inner as [|a r IHr]; intros t' Hin; [destruct Hin|];
+  destruct Hin as [<-|Hin]; [apply IH; apply Hall; left; reflexivity | apply IHr; [intros; apply Hall; right; assumption | assumption]].
+
+Lemma inner_blockc : forall b, inner_block_comments false emits_import_arg_trivia b = blockc b.
+Proof. intros [lp inner rp]. reflexivity. Qed.
+
+Ltac prep := cbn [format_token body_comments]; rewrite ?inner_blockc.
+
+Lemma emits_token : forall o t, ok_tok t -> emits (format_token o t) (body t).
+Proof.
+  fix IH 2. intros o t Hok.
+  destruct t.
+  - (* Align *) prep. repeat emits_leaf; emits_eqs.
+  - (* Assert *) prep. repeat emits_leaf; emits_eqs.
+  - (* Braces *) prep. assert (Hb : ok_block b) by exact Hok. block_case IH o b Hb.
+  - (* Config *) prep. assert (Hb : ok_block b) by exact Hok. block_case IH o b Hb.
+  - (* ConfigPair *) prep.
+    assert (Hv : emits (format_token o (l_data value)) (body (l_data value))) by (apply IH; exact Hok).
+    repeat emits_leaf; try exact Hv; emits_eqs.
+  - (* Data *) prep. repeat emits_leaf; emits_eqs.
+  - (* Definition *)
+    destruct value as [v|]; prep.
+    + assert (Hv : emits (format_token o v) (body v)) by (apply IH; exact Hok).
+      repeat emits_leaf; try exact Hv; emits_eqs.
+    + repeat emits_leaf; emits_eqs.
+  - (* Eof *) prep. apply emits_id.
+  - (* Error *) prep. apply emits_push.
+  - (* Expression *) prep. apply emits_expression.
+  - (* File *) prep. repeat emits_leaf; emits_eqs.
+  - (* If *)
+    destruct tag_else as [te|]; [destruct else_ as [eb|] | destruct else_ as [eb|]]; prep.
+    + assert (H2 : any_block (existsb is_expression_token) else_without_tag if_ ||
+                   any_block (existsb is_expression_token) else_without_tag eb = false) by exact Hok.
+      apply orb_false_elim in H2 as [Hb1 Hb2].
+      assert (Hif : emits (format_block o if_) (blockc if_)) by (block_case IH o if_ Hb1).
+      assert (Helse : emits (format_block o eb) (blockc eb)) by (block_case IH o eb Hb2).
+      destruct (o_braces o).
+      * repeat emits_leaf; try exact Hif; try exact Helse; cbn [opt_comments]; emits_eqs.
+      * ecomp; [ ecomp; [ | apply emits_loc | reflexivity ] | exact Helse | ].
+        -- instantiate (1 := lexpr_comments value ++ blockc if_).
+           destruct (trivia_has_newline (l_trivia te)).
+           ++ repeat emits_leaf; try exact Hif; emits_eqs.
+           ++ repeat emits_leaf; try exact Hif; emits_eqs.
+        -- cbn [opt_comments]. emits_eqs.
+    + assert (H2 : any_block (existsb is_expression_token) else_without_tag if_ || false = false) by exact Hok.
+      rewrite orb_false_r in H2.
+      assert (Hif : emits (format_block o if_) (blockc if_)) by (block_case IH o if_ H2).
+      destruct (o_braces o).
+      * repeat emits_leaf; try exact Hif; cbn [opt_comments]; emits_eqs.
+      * ecomp; [ | apply emits_loc | ].
+        -- instantiate (1 := lexpr_comments value ++ blockc if_).
+           destruct (trivia_has_newline (l_trivia te)).
+           ++ repeat emits_leaf; try exact Hif; emits_eqs.
+           ++ repeat emits_leaf; try exact Hif; emits_eqs.
+        -- cbn [opt_comments]. emits_eqs.
+    + discriminate Hok.
+    + assert (H2 : any_block (existsb is_expression_token) else_without_tag if_ || false = false) by exact Hok.
+      rewrite orb_false_r in H2.
+      assert (Hif : emits (format_block o if_) (blockc if_)) by (block_case IH o if_ H2).
+      repeat emits_leaf; try exact Hif; cbn [opt_comments]; emits_eqs.
+  - (* Import *)
+    destruct args as [c as_ | sargs]; destruct b as [bb|]; prep; cbn [import_args_comments].
+    + assert (Hb : ok_block bb) by exact Hok.
+      assert (Hbb : emits (format_block o bb) (blockc bb)) by (block_case IH o bb Hb).
+      repeat emits_leaf; try exact Hbb; emits_eqs.
+    + repeat emits_leaf; emits_eqs.
+    + assert (Hb : ok_block bb) by exact Hok.
+      assert (Hbb : emits (format_block o bb) (blockc bb)) by (block_case IH o bb Hb).
+      repeat emits_leaf; try exact Hbb; emits_eqs.
+    + repeat emits_leaf; emits_eqs.
+  - (* Instruction *) prep. repeat emits_leaf; emits_eqs.
+  - (* Label *)
+    destruct b as [bb|]; prep.
+    + assert (Hb : ok_block bb) by exact Hok.
+      assert (Hbb : emits (format_block o bb) (blockc bb)) by (block_case IH o bb Hb).
+      repeat emits_leaf; try exact Hbb; emits_eqs.
+    + apply emits_push_label.
+  - (* Loop *) prep.
+    assert (Hb : ok_block b) by exact Hok.
+    assert (Hbb : emits (format_block o b) (blockc b)) by (block_case IH o b Hb).
+    repeat emits_leaf; try exact Hbb; emits_eqs.
+  - (* MacroDefinition *) prep.
+    assert (Hb : ok_block b) by exact Hok.
+    assert (Hbb : emits (format_block o b) (blockc b)) by (block_case IH o b Hb).
+    repeat emits_leaf; try exact Hbb; emits_eqs.
+  - (* MacroInvocation *) prep. repeat emits_leaf; emits_eqs.
+  - (* ProgramCounterDefinition *) prep. repeat emits_leaf; emits_eqs.
+  - (* Segment *)
+    destruct b as [bb|]; prep.
+    + assert (Hb : ok_block bb) by exact Hok.
+      assert (Hbb : emits (format_block o bb) (blockc bb)) by (block_case IH o bb Hb).
+      repeat emits_leaf; try exact Hbb; emits_eqs.
+    + repeat emits_leaf; emits_eqs.
+  - (* Test *) prep.
+    assert (Hb : ok_block b) by exact Hok.
+    assert (Hbb : emits (format_block o b) (blockc b)) by (block_case IH o b Hb).
+    repeat emits_leaf; try exact Hbb; emits_eqs.
+  - (* Text *) prep. repeat emits_leaf; emits_eqs.
+  - (* Trace *) prep. repeat emits_leaf; emits_eqs.
+  - (* VariableDefinition *) prep. repeat emits_leaf; emits_eqs.
+Qed.
+
+(* ---------------------------------------------------------------- the file level *)
+Lemma ok_tokens_inv : forall ts, wf_tokens ts = true ->
+  existsb is_expression_token ts = false /\ forall t, In t ts -> ok_tok t.
+Proof.
+  intros ts H. unfold wf_tokens, any_tokens in H. apply negb_true_iff in H. apply orb_false_elim in H as [H1 H2].
+  split; [assumption|]. intros t Hin. unfold ok_tok. clear H1.
+  induction ts as [|a r IH]; [destruct Hin|]. cbn [existsb] in H2.
+  apply orb_false_elim in H2 as [Ha H2].
+  destruct Hin as [<-|Hin]; [exact Ha | apply IH; assumption].
+Qed.
+
+(* the comment chunks of a formatted file carry exactly the comments the token layer is expected to emit, in order *)
+Lemma format_chunks_comments : forall o ts, wf_tokens ts = true ->
+  nows (concat (chunk_comments (format_chunks o ts))) = nows (concat (emitted_comments ts)).
+Proof.
+  intros o ts Hwf. destruct (ok_tokens_inv ts Hwf) as [Hex Hall].
+  pose proof (emits_tokens_with (format_token o) None ts false
+                (fun t Hin => emits_token o t (Hall t Hin)) Hex f_init) as H.
+  cbn [veof_comments] in H. rewrite app_nil_r in H.
+  change (cnows f_init) with (@nil N) in H. cbn [app] in H. exact H.
+Qed.
+
+Lemma text_eqb_eq : forall x y, text_eqb x y = true -> x = y.
+Proof.
+  induction x as [|c x IHx]; destruct y as [|d y]; cbn; intros H; try discriminate; [reflexivity|].
+  apply andb_prop in H as [Hc Hy]. apply N.eqb_eq in Hc. subst. f_equal. apply IHx; assumption.
+Qed.
+
+Lemma texts_eqb_eq : forall a b, texts_eqb a b = true -> a = b.
+Proof.
+  induction a as [|x a IH]; destruct b as [|y b]; cbn; intros H; try discriminate; [reflexivity|].
+  apply andb_prop in H as [H1 H2]. f_equal; [apply text_eqb_eq; assumption | apply IH; assumption].
+Qed.
+
+(* C12: the token layer emits every comment of the file, in source order -- except the known class *)
+Theorem comments_in_order : forall o ts, wf_tokens ts = true -> Known_lbrace_trivia ts = false ->
+  nows (concat (chunk_comments (format_chunks o ts))) = nows (concat (all_comments ts)).
+Proof.
+  intros o ts Hwf Hk. rewrite (format_chunks_comments o ts Hwf).
+  unfold Known_lbrace_trivia in Hk. apply negb_false_iff in Hk. apply texts_eqb_eq in Hk.
+  unfold emitted_comments. rewrite Hk.
+  (* here the repaired import-argument defect matters: Gen.FmtRules.emits_import_arg_trivia must be true *)
+  reflexivity.
+Qed.
+
+(* ---------------------------------------------------------------- F-C12a on the model *)
+Definition tx (l : list N) : text := l.
+(* `.if 1 // c` NEWLINE `{ nop }` as the parser builds it *)
+Definition lbrace_witness : list token :=
+  [ If (mkLoc None [46; 105; 102]%N)
+       (mkLoc (Some [Whitespace [32%N]]) (Factor None None (mkLoc None (Number (mkLoc None []) (mkLoc None [49%N])))))
+       (mkBlock (mkLoc (Some [Whitespace [32%N]; CppStyle [47; 47; 32; 99]%N; TNewLine]) [123%N])
+                [Instruction (mkLoc (Some [Whitespace [32%N]]) [78; 79; 80]%N) None]
+                (mkLoc (Some [Whitespace [32%N]]) [125%N]))
+       None None;
+    Eof (mkLoc None tt) ].
+
+Lemma lbrace_trivia_dropped : exists o ts,
+  wf_tokens ts = true /\ Known_lbrace_trivia ts = true /\
+  all_comments ts = [[47; 47; 32; 99]%N] /\ chunk_comments (format_chunks o ts) = [].
+Proof. exists default_options, lbrace_witness. vm_compute. repeat split; reflexivity. Qed.
+
+(* ---------------------------------------------------------------- statements are separated by a line break *)
+(* every formatter step only appends chunks *)
+Lemma push_type_chunks : forall ty s st, exists new, f_chunks (push_type ty s st) = new ++ f_chunks st.
+Proof. intros ty s st. unfold push_type. destruct s; [exists [] | eexists [_]]; reflexivity. Qed.
+
+Lemma fmt_trivia_chunks : forall ts st, exists new, f_chunks (fmt_trivia ts st) = new ++ f_chunks st /\
+  (existsb (fun t => match t with TNewLine => true | _ => false end) ts = true ->
+   existsb (fun c => contains_nl (c_str c)) new = true).
+Proof.
+  unfold fmt_trivia. induction ts as [|t r IH]; intros st; cbn [fold_left existsb].
+  - exists []. split; [reflexivity | discriminate].
+  - destruct (IH (fmt_trivium t st)) as [n2 [E2 H2]].
+    assert (H1 : exists n1, f_chunks (fmt_trivium t st) = n1 ++ f_chunks st /\
+                 (match t with TNewLine => true | _ => false end = true -> existsb (fun c => contains_nl (c_str c)) n1 = true)).
+    { destruct t as [s| |s|s]; cbn [fmt_trivium].
+      - exists []. split; [reflexivity | discriminate].
+      - unfold push, push_type. eexists [_]. split; [reflexivity|]. intros _. cbn. destruct (f_spc st); reflexivity.
+      - destruct (push_type_chunks (Some Comment) s st) as [n E]. exists n. split; [exact E | discriminate].
+      - destruct (push_type_chunks (Some Comment) s st) as [n E]. exists n. split; [exact E | discriminate]. }
+    destruct H1 as [n1 [E1 H1]]. exists (n2 ++ n1). rewrite E2, E1, app_assoc. split; [reflexivity|].
+    intros H. rewrite existsb_app. apply orb_true_iff in H as [H|H]; [rewrite (H1 H), orb_true_r | rewrite (H2 H)]; reflexivity.
+Qed.
+
+(* C12 (repaired defect 498deb7): between a statement and the next one -- unless the first is a label standing in front of
+   its statement -- the formatter always emits a chunk that contains a line break: two statements are never emitted
+   back to back.  `st` is the state after the first statement. *)
+Theorem statements_separated : forall p t st,
+  is_blockless_label p = false -> is_eof_token t = false -> kind_of t <> KError ->
+  exists gap, f_chunks (newline_before (Some p) t (fmt_otrivia (token_trivia t) st)) = gap ++ f_chunks st /\
+              existsb (fun c => contains_nl (c_str c)) gap = true.
+Proof.
+  intros p t st Hp Ht Hk.
+  assert (Htr : exists n1, f_chunks (fmt_otrivia (token_trivia t) st) = n1 ++ f_chunks st /\
+                (trivia_has_newline (token_trivia t) = true -> existsb (fun c => contains_nl (c_str c)) n1 = true)).
+  { unfold fmt_otrivia, trivia_has_newline. destruct (token_trivia t) as [ts|].
+    - apply fmt_trivia_chunks.
+    - exists []. split; [reflexivity | discriminate]. }
+  destruct Htr as [n1 [E1 H1]].
+  set (st1 := fmt_otrivia (token_trivia t) st) in *.
+  unfold newline_before. rewrite Hp, Ht. cbn [negb andb].
+  assert (Hpush : forall s, f_chunks (push [NL] s) = mkChunk None (f_indent s) (if f_spc s then [SP; NL] else [NL]) :: f_chunks s).
+  { intros s. unfold push, push_type. reflexivity. }
+  assert (Hsep : separates_same_line_statements = true) by reflexivity.
+  rewrite Hsep. cbn [andb].
+  destruct (trivia_has_newline (token_trivia t)) eqn:Enl; cbn [negb andb].
+  - (* the trivia already carries a line break *)
+    assert (Hgoal : forall s', (exists n2, f_chunks s' = n2 ++ f_chunks st1) ->
+                    exists gap, f_chunks s' = gap ++ f_chunks st /\ existsb (fun c => contains_nl (c_str c)) gap = true).
+    { intros s' [n2 E2]. exists (n2 ++ n1). rewrite E2, E1, app_assoc. split; [reflexivity|].
+      rewrite existsb_app, (H1 eq_refl), orb_true_r. reflexivity. }
+    destruct (kind_of t) eqn:Ek; try congruence;
+      (destruct (pushes_newline _ _ _); apply Hgoal; [eexists [_]; apply Hpush | exists []; reflexivity]).
+  - (* it does not: the separating newline is pushed *)
+    assert (Hgoal : forall s', (exists n2, f_chunks s' = n2 ++ f_chunks (push [NL] st1)) ->
+                    exists gap, f_chunks s' = gap ++ f_chunks st /\ existsb (fun c => contains_nl (c_str c)) gap = true).
+    { intros s' [n2 E2]. eexists (n2 ++ _ :: n1). rewrite E2, Hpush, E1, <- app_assoc. split; [reflexivity|].
+      rewrite existsb_app. cbn [existsb c_str]. destruct (f_spc st1); cbn; rewrite ?orb_true_r; reflexivity. }
+    destruct (kind_of t) eqn:Ek; try congruence;
+      (destruct (pushes_newline _ _ _); apply Hgoal; [eexists [_]; apply Hpush | exists []; reflexivity]).
 Qed.
